@@ -49,7 +49,7 @@ func (st *symtab) sortSeen(s *Sort) {
 	}
 	switch s.K {
 	case KNamed:
-		if len(s.Fields) > 0 {
+		if len(s.Fields) > 0 || strings.HasPrefix(s.Name, "S_") { // struct sorts, the empty struct included
 			if _, ok := st.structs[s.Name]; !ok {
 				for _, f := range s.Fields {
 					st.sortSeen(f.S)
@@ -548,7 +548,9 @@ func (e *Engine) Solve(jobs []solveJob, cfg SolverCfg) {
 				}
 				o.Seconds = total
 				if !cfg.KeepFiles && o.Result == want {
-					os.Remove(file)
+					if !cfg.KeepFiles {
+						os.Remove(file)
+					}
 				} else {
 					o.Detail += " [smt: " + file + "]"
 				}
@@ -603,7 +605,24 @@ func (e *Engine) Solve(jobs []solveJob, cfg SolverCfg) {
 					_ = cmd.Run()
 					cancel()
 					dt := time.Since(t0).Seconds()
-					lines := strings.Fields(out.String())
+					// one verdict line per obligation, in order; anything else in the output (a solver
+					// error shifts or drops lines) invalidates the whole batch: its obligations are then
+					// decided one by one
+					var lines []string
+					clean := !strings.Contains(out.String(), "(error")
+					for _, ln := range strings.Split(out.String(), "\n") {
+						ln = strings.TrimSpace(ln)
+						switch ln {
+						case "sat", "unsat", "unknown", "timeout":
+							lines = append(lines, ln)
+						case "":
+						default:
+							clean = false
+						}
+					}
+					if !clean || len(lines) > len(g.obls) {
+						lines = nil
+					}
 					for i, o := range g.obls {
 						if i < len(lines) && lines[i] == "unsat" {
 							o.Result, o.Solver, o.Seconds = "unsat", "z3-new(batch)", dt/float64(len(g.obls))
@@ -612,7 +631,9 @@ func (e *Engine) Solve(jobs []solveJob, cfg SolverCfg) {
 							mu.Unlock()
 						}
 					}
-					os.Remove(file)
+					if !cfg.KeepFiles {
+						os.Remove(file)
+					}
 				}
 			}()
 		}
